@@ -11,6 +11,31 @@ import copy
 from .index import AnalysisError, norm
 
 
+def _fresh_value(src):
+    """does the environment entry describe the CONTENT of a freshly built container (display, comprehension, container constructor)?  Such a text
+    stops describing the local once the local is mutated; an alias path or the result of an ordinary call keeps denoting the same object."""
+    try:
+        e = ast.parse(src, mode="eval").body
+    except SyntaxError:
+        return True
+    if isinstance(e, (ast.List, ast.Dict, ast.Set, ast.ListComp, ast.SetComp, ast.DictComp, ast.GeneratorExp)):
+        return True
+    if isinstance(e, ast.Call) and isinstance(e.func, ast.Name) and e.func.id in ("list", "dict", "set", "deque", "defaultdict", "OrderedDict", "OrderedSet", "sorted", "bytearray"):
+        return True
+    if isinstance(e, ast.BinOp):
+        return True
+    return False
+
+
+def _drop_mutated(env, name):
+    v = env.get(name)
+    if v is not None and _fresh_value(v):
+        env.pop(name, None)
+
+
+MUTATORS = frozenset(["append", "extend", "insert", "add", "update", "remove", "discard", "pop", "popleft", "appendleft", "clear", "sort", "reverse", "setdefault", "popitem"])
+
+
 class Path(object):
     __slots__ = ("conds", "env", "calls", "end", "value", "stmts")
 
@@ -123,9 +148,15 @@ class Extractor(object):
         return ts, fs
 
     def _calls_in(self, expr, p):
+        mutated = []
         for sub in ast.walk(expr):
             if isinstance(sub, ast.Call):
                 p.calls.append((norm(sub.func), [subst(a, p.env) for a in sub.args], sub))
+                # a mutator called on a local that the environment maps to an expression: the expression no longer describes it
+                if isinstance(sub.func, ast.Attribute) and isinstance(sub.func.value, ast.Name) and sub.func.attr in MUTATORS and sub.func.value.id in p.env:
+                    mutated.append(sub.func.value.id)
+        for name in mutated:
+            _drop_mutated(p.env, name)
 
     def _assign_value(self, target, value, paths):
         """assign (possibly forking on a conditional expression)"""
@@ -151,6 +182,8 @@ class Extractor(object):
             else:
                 # attribute / subscript store: recorded as an effect
                 p.calls.append(("<store>", [subst(target, p.env), subst(value, p.env)], target))
+                if isinstance(target, (ast.Subscript, ast.Attribute)) and isinstance(target.value, ast.Name):
+                    _drop_mutated(p.env, target.value.id)
             out.append(p)
         return out
 
@@ -246,10 +279,14 @@ class Extractor(object):
         if isinstance(st, (ast.For, ast.While)) and self.opaque_loops:
             for p in paths:
                 p.calls.append(("<loop>", [norm(st.iter) if isinstance(st, ast.For) else norm(st.test)], st))
-                # names assigned in the loop become unknown
+                # names assigned or mutated in the loop become unknown
                 for sub in ast.walk(st):
                     if isinstance(sub, ast.Name) and isinstance(sub.ctx, ast.Store):
                         p.env.pop(sub.id, None)
+                    elif isinstance(sub, ast.Call) and isinstance(sub.func, ast.Attribute) and isinstance(sub.func.value, ast.Name) and sub.func.attr in MUTATORS:
+                        _drop_mutated(p.env, sub.func.value.id)
+                    elif isinstance(sub, (ast.Subscript, ast.Attribute)) and isinstance(sub.ctx, (ast.Store, ast.Del)) and isinstance(sub.value, ast.Name):
+                        _drop_mutated(p.env, sub.value.id)
             return paths
         if isinstance(st, (ast.With, ast.AsyncWith)):
             for p in paths:
